@@ -2543,11 +2543,19 @@ func (p *wat2X64Worker) buildFunc_ins(
 		sp1 := p.fnWasmR0Base - 8*stk.Pop(token.I32) - 8
 		ret0 := p.fnWasmR0Base - 8*stk.Push(token.I32) - 8
 
+		// x % -1 == 0; idiv 会对 INT_MIN / -1 产生异常
+		labelEnd := p.makeLabelId(kLabelPrefixName_end, "", p.genNextId())
+
 		fmt.Fprintf(w, "    # i32.rem_s\n")
 		fmt.Fprintf(w, "    push rdx\n")
 		fmt.Fprintf(w, "    mov  eax, dword ptr [rbp%+d]\n", sp1)
+		fmt.Fprintf(w, "    mov  r10d, dword ptr [rbp%+d]\n", sp0)
+		fmt.Fprintf(w, "    xor  edx, edx\n")
+		fmt.Fprintf(w, "    cmp  r10d, -1\n")
+		fmt.Fprintf(w, "    je   %s\n", labelEnd)
 		fmt.Fprintf(w, "    cdq  # edx = copysign(eax)\n")
-		fmt.Fprintf(w, "    idiv dword ptr [rbp%+d]\n", sp0)
+		fmt.Fprintf(w, "    idiv r10d\n")
+		p.gasFuncLabel(w, labelEnd)
 		fmt.Fprintf(w, "    mov  dword ptr [rbp%+d], edx\n", ret0)
 		fmt.Fprintf(w, "    pop  rdx\n")
 		fmt.Fprintln(w)
@@ -2765,11 +2773,19 @@ func (p *wat2X64Worker) buildFunc_ins(
 		sp1 := p.fnWasmR0Base - 8*stk.Pop(token.I64) - 8
 		ret0 := p.fnWasmR0Base - 8*stk.Push(token.I64) - 8
 
+		// x % -1 == 0; idiv 会对 INT64_MIN / -1 产生异常
+		labelEnd := p.makeLabelId(kLabelPrefixName_end, "", p.genNextId())
+
 		fmt.Fprintf(w, "    # i64.rem_s\n")
 		fmt.Fprintf(w, "    push rdx\n")
 		fmt.Fprintf(w, "    mov  rax, qword ptr [rbp%+d]\n", sp1)
+		fmt.Fprintf(w, "    mov  r10, qword ptr [rbp%+d]\n", sp0)
+		fmt.Fprintf(w, "    xor  edx, edx\n")
+		fmt.Fprintf(w, "    cmp  r10, -1\n")
+		fmt.Fprintf(w, "    je   %s\n", labelEnd)
 		fmt.Fprintf(w, "    cqo  # rdx = copysign(rax)\n")
-		fmt.Fprintf(w, "    idiv qword ptr [rbp%+d]\n", sp0)
+		fmt.Fprintf(w, "    idiv r10\n")
+		p.gasFuncLabel(w, labelEnd)
 		fmt.Fprintf(w, "    mov  qword ptr [rbp%+d], rdx\n", ret0)
 		fmt.Fprintf(w, "    pop  rdx\n")
 		fmt.Fprintln(w)
